@@ -139,9 +139,29 @@ class DictWriter:
                 "amount": variable.amount,
                 "alignment": variable.alignment,
             }
+            if variable.value is not None:
+                json_variable["value"] = [
+                    self.write_initial_value(part) for part in variable.value
+                ]
         else:  # pragma: no cover
             raise NotImplementedError(str(variable))
         return json_variable
+
+    def write_initial_value(self, part):
+        """Write a part of the initial value of a variable."""
+        if isinstance(part, bytes):
+            json_part = {
+                "kind": "bytes",
+                "data": bin2asc(part),
+            }
+        elif isinstance(part, tuple) and part[0] is ir.ptr:
+            json_part = {
+                "kind": "label",
+                "name": part[1],
+            }
+        else:  # pragma: no cover
+            raise NotImplementedError(str(part))
+        return json_part
 
     def write_subroutine(self, subroutine):
         json_binding = self.write_binding(subroutine.binding)
@@ -417,9 +437,24 @@ class DictReader:
         binding = self.construct_binding(json_variable["binding"])
         amount = json_variable["amount"]
         alignment = json_variable["alignment"]
-        variable = ir.Variable(name, binding, amount, alignment)
+        value = json_variable.get("value")
+        if value is not None:
+            value = tuple(
+                self.construct_initial_value(json_part) for json_part in value
+            )
+        variable = ir.Variable(name, binding, amount, alignment, value=value)
         self.register_value(variable)
         return variable
+
+    def construct_initial_value(self, json_part):
+        kind = json_part["kind"]
+        if kind == "bytes":
+            part = asc2bin(json_part["data"])
+        elif kind == "label":
+            part = (ir.ptr, json_part["name"])
+        else:  # pragma: no cover
+            raise NotImplementedError(kind)
+        return part
 
     def construct_subroutine(self, json_subroutine):
         name = json_subroutine["name"]
